@@ -215,8 +215,8 @@ def record_one(job):
 
 
 def record(ctx):
-    n = 1200 if ctx.tier == "thorough" else 128
-    budget = 4 * 10 ** 7 if ctx.tier == "thorough" else 2 * 10 ** 6
+    n = 800 if ctx.tier == "thorough" else 128
+    budget = 2 * 10 ** 7 if ctx.tier == "thorough" else 2 * 10 ** 6
     jobs = [{"id": i + 1, "seed": (ctx.seed * 999983 + i * 7 + 11) % (2 ** 31), "budget": budget} for i in range(n)]
     return pool_map(record_one, jobs, chunksize=max(1, n // 128))
 
